@@ -208,6 +208,58 @@ def all_graphs(nmax):
             yield n, [e for k, e in enumerate(edges) if mask >> k & 1]
 
 
+def multi_anchor_systems(quick):
+    """Two and three ANCHOR molecules that contain hydrogens (real element types), every order of the explicit anchor
+    list, plus guessed anchors (enough ions that guess_anchor_molecules picks exactly the bonded molecules); the scatter
+    is every placement of the non-first molecules in the images {-1,0,1}^3 relative to the first (molshift)."""
+    out = []
+    a = np.deg2rad(104.0)
+    xh2 = np.array([[0, 0, 0], [1, 0, 0], [np.cos(a), np.sin(a), 0.0]])              # X H H
+    ch3 = _star4()                                                                  # C H H H
+    xh = np.array([[0, 0, 0], [0, 0.8, 0.6]])
+    cA, cB, cC = [0.3, 0.35, 0.4], [0.62, 0.55, 0.5], [0.45, 0.72, 0.3]
+
+    def ions(k, start):
+        return [[(0.08 + 0.19 * i) % 1, (0.12 + 0.37 * i) % 1, (0.9 - 0.23 * i) % 1] for i in range(start, start + k)]
+
+    def build(name, mols_geo, n_ions, anchors):
+        n = sum(len(g) for g, _e, _b, _c in mols_geo) + n_ions
+        geom = np.zeros((n, 3))
+        elements, mols, bonds, centres = [], [], [], []
+        k = 0
+        for g, el, bl, cen in mols_geo:
+            idx = tuple(range(k, k + len(g)))
+            geom[list(idx)] = g
+            elements += el
+            mols.append(idx)
+            bonds += [(k + x, k + y) for x, y in bl]
+            centres.append(cen)
+            k += len(g)
+        for i, cen in enumerate(ions(n_ions, 3)):
+            mols.append((k,))
+            elements.append("Na")
+            centres.append(cen)
+            k += 1
+        out.append(dict(name=name, n=n, mols=mols, bonds=bonds, geom=geom, centres=np.array(centres, float), small=False,
+                        anchors=anchors, elements=elements, molshift=list(range(1, len(mols_geo))), light=True))
+
+    A = (xh2, ["O", "H", "H"], [(0, 1), (0, 2)], cA)
+    B = (ch3, ["C", "H", "H", "H"], [(0, 1), (0, 2), (0, 3)], cB)
+    C = (xh, ["N", "H"], [(0, 1)], cC)
+    Hf = (xh2[[1, 2, 0]], ["H", "H", "O"], [(0, 2), (1, 2)], cB)                      # hydrogens first, heavy atom last
+    for order in itertools.permutations(range(2)):
+        build("anch2/order=%s" % "".join(map(str, order)), [A, B], 1, list(order))
+    build("anch2-HHO/order=01", [A, Hf], 1, [0, 1])
+    for order in itertools.permutations(range(3)):
+        if quick and order not in ((0, 1, 2), (1, 2, 0), (2, 0, 1)):      # quick: each molecule is the first anchor once
+            continue
+        build("anch3/order=%s" % "".join(map(str, order)), [A, B, C], 1, list(order))
+    build("anch2/guessed", [A, B], 18, "guess")              # 20 molecules -> both bonded molecules are anchors
+    if not quick:
+        build("anch3/guessed", [A, B, C], 27, "guess")       # 30 molecules
+    return out
+
+
 def systems(quick):
     """name -> list of variants; each variant dict(name, n, mols, bonds(list in insertion order), geom (n,3), centres (per mol, fractional), small(bool))."""
     out = []
@@ -265,7 +317,7 @@ def systems(quick):
     cen14 = cen + [[(0.1 + 0.23 * k) % 1, (0.2 + 0.31 * k) % 1, (0.85 - 0.17 * k) % 1] for k in range(8)]
     add("mix14/guessed", 14, [A, B] + [(i,) for i in range(5, 14)], [(0, 1), (1, 2), (3, 4)], geom, cen14, False,
         anchors="guess")
-    return out + relabelled_systems(quick)
+    return out + relabelled_systems(quick) + multi_anchor_systems(quick)
 
 
 def merge_order(bonds_sorted):
@@ -316,6 +368,14 @@ def scatters(sysv, full):
     `light` systems (anchor + relabelled non-anchor molecule): the identity, every single-atom scatter and every
     whole-molecule shift of the first two molecules, by the 26 images (`full`) or the 6 face images."""
     n = sysv["n"]
+    if sysv.get("molshift"):
+        ms = sysv["molshift"]
+        imgs = IMAGES if (len(ms) == 1 or n <= 12) else np.vstack([np.zeros((1, 3), np.int64), FACE6])
+        idx = np.array(list(itertools.product(range(len(imgs)), repeat=len(ms))))
+        sc = np.zeros((len(idx), n, 3), np.int64)
+        for col, mi in enumerate(ms):
+            sc[:, list(sysv["mols"][mi])] = imgs[idx[:, col]][:, None, :]
+        return sc
     if sysv["small"] and (full or n <= 2):
         idx = np.array(list(itertools.product(range(27), repeat=n)))
         return IMAGES[idx]
